@@ -102,6 +102,21 @@ def _equals_simplified(arg1: 'Array', arg2: 'Array'):
         return False # values differ
 
 
+def _isunique(index: 'Array'):
+    'return True if the integer array certainly has no repeated entries'
+
+    if index.ndim == 0:
+        return True
+    if isinstance(index, Constant):
+        return len(numpy.unique(index.value)) == index.value.size
+    if index.ndim > 1:
+        return False
+    if isinstance(index, Add): # a uniform shift does not affect uniqueness
+        nonuniform = [term for term in index._terms if not (isinstance(term, InsertAxis) and term.func.ndim == 0)]
+        return len(nonuniform) == 1 and _isunique(nonuniform[0])
+    return isinstance(index, Range)
+
+
 _certainly_different = lambda a, b: _equals_simplified(a, b) is False
 _certainly_equal = lambda a, b: _equals_simplified(a, b) is True
 _any_certainly_different = lambda a, b: len(a) != len(b) or any(map(_certainly_different, a, b))
@@ -3495,6 +3510,14 @@ class Inflate(Array):
 
     def _intbounds_impl(self):
         lower, upper = self.func._intbounds
+        if not _isunique(self.dofmap):
+            # Entries of `func` that share a dof are summed, hence the bounds
+            # scale with the number of entries that may end up in one dof.
+            n = util.product((length._intbounds[1] for length in self.dofmap.shape), 1)
+            if n == 0:
+                return 0, 0
+            # NOTE: `b and b * n` prevents nans from multiplying zero with inf.
+            lower, upper = lower and lower * n, upper and upper * n
         return min(lower, 0), max(upper, 0)
 
     def _argument_degree(self, argument):
